@@ -331,13 +331,18 @@ int main(int argc, char **argv) {
 			if (!vh_mine(idx++)) continue;
 			if (vh_time_up()) goto done;
 			unsigned nv = 1; for (int i = 0; i < n; i++) nv *= nvs;
-			for (unsigned vcode = 0; vcode < nv; vcode++)
+			for (unsigned vcode = 0; vcode < nv; vcode++) {
+			if ((vcode & 7) == 0 && vh_time_up()) goto done;
 			for (int ci = 0; ci < 6; ci++) for (int ri = 0; ri < nR; ri++) for (int bi = 0; bi < nB; bi++) for (int fi = 0; fi < nP; fi++) {
+				/* thorough tier: the full configuration product for n<=3; for longer sequences the block-size and prefix axes are thinned */
+				if (vh_thorough && !pool && n >= 4 && ((bi != 0 && ri > 1) || (fi > 1 && ci > 1))) continue;
+				if (vh_thorough && !pool && n >= 5 && (ri == 2 || ri == 4) && ci != 0) continue;
 				tcfg cfg = { 0 }; cfg.comp = comps[ci]; cfg.restart = R[ri]; cfg.block_size = B[bi]; cfg.prefix = PF[fi];
 				gen_struct(&c, &cfg, pool ? POOLS[pi] : 0, mask, vcode, nvs, vs);
 				c.tool = (!pool && ci == 0 && ri == 0 && bi == 0 && fi == 0 && (mask * 31 + vcode) % 16 == 0);
 				run_case(&c); tcase_free(&c);
 				if (vh_too_many()) goto done;
+			}
 			}
 		}
 	} else if (!strcmp(mode, "cadence")) {
